@@ -108,6 +108,14 @@ CLAIMS = {
             "keypair table key / seed reconstruction / regeneration size; proto CurveType vs CURVE_FACTORY exhaustiveness with binary-field curves mapped to None.",
             "Not decided: that the shipped keypair table is complete for all covered seeds (binary data; regeneration needs AES at run time). Some structure checks of __init__ bodies compare normalised statements.",
             "DESIGN.md section 3 C06"),
+    "C13": ("other", "decision-table extraction over the finite weak orderings of the compared quantities (symbolic path walk incl. except handlers), truth tables, structural entry-point and registry analysis",
+            "Decides the third sentence of the property (the decision rule): per named p-value the state is FAILED iff the Fisher combination is below the fail level, "
+            "else PASSED iff the combined repeat level is below it, else UNDECIDED - checked on all 13 weak orderings; the new value is appended before combining, the repeat level "
+            "is combined over the same count, `undecided` counts exactly the UNDECIDED names, finished <=> undecided == 0 and runs >= min_repetitions, InsufficientDataError "
+            "finishes without a state; TestSource repeats with fresh bits while some test is unfinished and both entry points return any(Failed) over the complete registry "
+            "(NIST + extended + lattice, every public test function registered); CombinedPValue has the four-case Fisher shape.",
+            "Not decided: that good generators pass and the documented weak ones fail (statistics on runtime values).",
+            "DESIGN.md section 3 C13"),
     "C16": ("other", "typestate / who-may-write analysis over the AST + symbolic path walk of all 24 Check bodies",
             "Decides, for every path of every Check body in the package, that each loop iteration records exactly one "
             "result entry on that iteration's artifact with an entry created in the same iteration, that the positive flag, "
